@@ -21,6 +21,7 @@ import (
 	"math"
 	"os"
 	"path/filepath"
+	"regexp"
 	"sort"
 	"strings"
 	"unicode"
@@ -748,6 +749,33 @@ func buildPDF(c *fw.Ctx, dir string, i int, base *pagegen.Page) pdfCase {
 		}
 		pages = append(pages, pagegen.Build(s2, c.Rand("page", i, "p2")))
 	}
+	if len(pages) == 1 && base.Spec.Frag != "char" && r.Intn(5) == 0 {
+		// a second page set on the same grid as the first: every fragment at the same
+		// place with the same glyphs in another order (each token with two of its
+		// characters exchanged), so that the boxes of the two pages agree and only the
+		// text differs
+		twin := *base
+		twin.Frags = append([]pagegen.Frag(nil), base.Frags...)
+		changed := false
+		for k := range twin.Frags {
+			t := tokenRe.ReplaceAllStringFunc(twin.Frags[k].Text, func(tok string) string {
+				b := []byte(tok)
+				for _, pr := range [][2]int{{1, 2}, {2, 3}, {1, 3}} {
+					if b[pr[0]] != b[pr[1]] {
+						b[pr[0]], b[pr[1]] = b[pr[1]], b[pr[0]]
+						changed = true
+						break
+					}
+				}
+				return string(b)
+			})
+			twin.Frags[k].Text = t
+		}
+		if changed {
+			pages = append(pages, &twin)
+			c.Seen("pdf", "second page on the same grid as the first, other text")
+		}
+	}
 	var sps []pdfw.SimplePage
 	var dev []*pagegen.Page
 	for _, p := range pages {
@@ -780,6 +808,8 @@ func buildPDF(c *fw.Ctx, dir string, i int, base *pagegen.Page) pdfCase {
 	os.WriteFile(path, pdfw.SimplePDF(sps), 0o644)
 	return pdfCase{path: path, pages: dev}
 }
+
+var tokenRe = regexp.MustCompile(`q[0-9a-z]{3}z[0-9a-z]{4}`)
 
 // ---------------------------------------------------------- fixed witnesses
 
